@@ -428,3 +428,143 @@ Theorem C15_BinAliasOrderExample_ex_legacy_first_loses :
          BinAliasOrderExample.ex_inst = VColor3uint8 242 243 243.
 Proof. exact BinAliasOrderExample.ex_legacy_first_loses. Qed.
 
+(* ---- the same at column and file level (Proofs/BinAliasOrderFile.v): the column collect_type_info builds for a class whose instances carry the legacy
+   name, an alias and/or the new name in any visiting order (migration set as soon as one instance carried the legacy name; aliases = exactly the
+   non-canonical spellings met, each once: column_after_two_instances, any database); the PROP chunk under an order with the legacy names last holds the
+   explicit value (prop_chunk_alias_explicit_wins, any database; the hypothesis is satisfiable for every database: partition_order_legacy_last); and
+   encode_file followed by decode_file on the sample database (BrickColor -> Color, Color3uint8 an alias), generic in both values, both visiting orders,
+   all of ep and dp: exactly {Color := ex} comes back; with the legacy name first the migrated legacy value comes back, and a legacy value WITHOUT
+   migration makes the whole save fail although a valid explicit value is present (bin_write_legacy_first_unmigratable_fails_file) — the outcome is
+   decided by the order alone (bin_write_outcome_is_the_order_file). *)
+From RbxVerif Require Import BinAliasOrderFile.
+Theorem C15_column_after_two_instances :
+  forall (d : db) (class p a : bytes) (cd sd : pdesc) (q : string) (op : migop) (qd qs : pdesc),
+       find_desc_bin d (string_of_bytes class) (string_of_bytes p) = Ok (Some (cd, Some sd)) ->
+       pd_kind sd = KCanon (PMigrate q op) ->
+       find_desc_bin d (string_of_bytes class) q = Ok (Some (qd, Some qs)) ->
+       find_desc_bin d (string_of_bytes class) (string_of_bytes a) = Ok (Some (qd, Some qs)) ->
+       find_desc_bin d (string_of_bytes class) (string_of_bytes (bstr (pd_name qd))) =
+       Ok (Some (qd, Some qs)) ->
+       match pd_kind qs with
+       | KCanon (PMigrate _ _) => False
+       | _ => True
+       end ->
+       bytes_eqb a p = false ->
+       bytes_eqb (bstr (pd_name qd)) p = false ->
+       bytes_eqb (bstr (pd_name qd)) NAME = false ->
+       forall (dbdef : option value) (dv : value) (wt : wire_type),
+       match get_class d (string_of_bytes class) with
+       | Some c => find_default d c (string_of_bytes (bstr (pd_name qd)))
+       | None => Ok None
+       end = Ok dbdef ->
+       match dbdef with
+       | Some x => Some x
+       | None => fallback_default_value (dtype_vt (pd_type qs))
+       end = Some dv ->
+       from_rbx_type (dtype_vt (pd_type qs)) = Some wt ->
+       forall (st : ser_state) (i1 i2 : inst),
+       i_class i1 = class ->
+       i_class i2 = class ->
+       bfind class (ss_types st) = None ->
+       only_spellings p a qd (i_props i1) ->
+       only_spellings p a qd (i_props i2) ->
+       i_props i1 <> [] ->
+       let names := List.map fst (i_props i1) ++ List.map fst (i_props i2) in
+       exists (st1 st2 : ser_state) (ti2 : type_info) (pi : prop_info),
+         collect_type_info d st i1 = Ok st1 /\
+         collect_type_info d st1 i2 = Ok st2 /\
+         bfind class (ss_types st2) = Some ti2 /\
+         ti_instances ti2 = [i_ref i1; i_ref i2] /\
+         bfind (bstr (pd_name qd)) (ti_props ti2) = Some pi /\
+         (In p names -> pi_migration pi = Some op) /\
+         (forall y : bytes, In y (pi_aliases pi) <-> In y names /\ bytes_eqb y (bstr (pd_name qd)) = false) /\
+         NoDup (pi_aliases pi).
+Proof. exact column_after_two_instances. Qed.
+
+Theorem C15_prop_chunk_alias_explicit_wins :
+  forall (d : db) (class : bytes) (ep : enc_params) (dom : cdom) (ctx : enc_ctx) 
+         (ti : type_info) (can : bytes) (pi : prop_info) (op : migop) (r : N) (i : inst) 
+         (a : bytes) (ex : value),
+       ep_legacy_last d class ep ->
+       bytes_eqb can NAME = false ->
+       pi_migration pi = Some op ->
+       ti_instances ti = [r] ->
+       find_inst dom r = Some i ->
+       bfind can (i_props i) = None ->
+       In a (pi_aliases pi) ->
+       is_legacy_db d class a = false ->
+       bfind a (i_props i) = Some ex ->
+       (forall (b : bytes) (v : value),
+        In b (pi_aliases pi) -> is_legacy_db d class b = false -> bfind b (i_props i) = Some v -> v = ex) ->
+       vtype ex = mig_out_type op ->
+       prop_chunk ep dom ctx ti (can, pi) =
+       ' col <- enc_col (pi_type pi) ctx [ex];;
+       Ok (CH_PROP, w_le32 (ti_id ti) ++ w_bstr (pi_ser_name pi) ++ w_u8 (wire_id (pi_type pi)) ++ col).
+Proof. exact prop_chunk_alias_explicit_wins. Qed.
+
+Theorem C15_prop_chunk_legacy_first_loses :
+  forall (ep : enc_params) (dom : cdom) (ctx : enc_ctx) (ti : type_info) (can : bytes) 
+         (pi : prop_info) (op : migop) (r : N) (i : inst) (l : bytes) (v w : value),
+       is_perm (ep_order ep (pi_aliases pi)) (pi_aliases pi) = true ->
+       bytes_eqb can NAME = false ->
+       pi_migration pi = Some op ->
+       ti_instances ti = [r] ->
+       find_inst dom r = Some i ->
+       bfind can (i_props i) = None ->
+       find (BinWrite.carried i) (ep_order ep (pi_aliases pi)) = Some l ->
+       bfind l (i_props i) = Some v ->
+       migrate (ep_font ep) (ep_brick ep) op v = Some w ->
+       prop_chunk ep dom ctx ti (can, pi) =
+       ' col <- enc_col (pi_type pi) ctx [w];;
+       Ok (CH_PROP, w_le32 (ti_id ti) ++ w_bstr (pi_ser_name pi) ++ w_u8 (wire_id (pi_type pi)) ++ col).
+Proof. exact prop_chunk_legacy_first_loses. Qed.
+
+Theorem C15_partition_order_legacy_last :
+  forall (d : db) (class : bytes) (ft : font_table) (bt : brick_table) (qu : f32 -> N)
+         (hs : list (bytes * bytes)),
+       ep_legacy_last d class
+         {|
+           ep_font := ft;
+           ep_brick := bt;
+           ep_quant := qu;
+           ep_order := partition_order (is_legacy_db d class);
+           ep_hash := hs
+         |}.
+Proof. exact partition_order_legacy_last. Qed.
+
+Theorem C15_SampleFile_bin_write_alias_explicit_wins_file :
+  forall (ep : enc_params) (dp : dec_params) (flip : bool) (v ex : value),
+       ep_legacy_last SampleFile.sdb SampleFile.PART ep ->
+       dp_lim dp = None ->
+       (forall s : bytes, v <> VSharedString s) ->
+       vtype ex = 6 -> SampleFile.roundtrip ep dp flip v ex = SampleFile.decoded ex.
+Proof. exact SampleFile.bin_write_alias_explicit_wins_file. Qed.
+
+Theorem C15_SampleFile_bin_write_legacy_first_loses_file :
+  forall (ep : enc_params) (dp : dec_params) (flip : bool) (r g b : N),
+       ep_legacy_first SampleFile.sdb SampleFile.PART ep ->
+       ep_brick ep = Sample.sbt ->
+       dp_lim dp = None ->
+       SampleFile.roundtrip ep dp flip (VBrickColor 194) (VColor3uint8 r g b) =
+       SampleFile.decoded (VColor3uint8 163 162 165).
+Proof. exact SampleFile.bin_write_legacy_first_loses_file. Qed.
+
+Theorem C15_SampleFile_bin_write_outcome_is_the_order_file :
+  forall (ep : enc_params) (dp : dec_params) (flip : bool) (r g b : N),
+       (forall l : list bytes, is_perm (ep_order ep l) l = true) ->
+       ep_brick ep = Sample.sbt ->
+       dp_lim dp = None ->
+       SampleFile.roundtrip ep dp flip (VBrickColor 194) (VColor3uint8 r g b) =
+       SampleFile.decoded (VColor3uint8 r g b) \/
+       SampleFile.roundtrip ep dp flip (VBrickColor 194) (VColor3uint8 r g b) =
+       SampleFile.decoded (VColor3uint8 163 162 165).
+Proof. exact SampleFile.bin_write_outcome_is_the_order_file. Qed.
+
+Theorem C15_SampleFile_bin_write_legacy_first_unmigratable_fails_file :
+  forall (ep : enc_params) (flip : bool) (r g b : N),
+       ep_legacy_first SampleFile.sdb SampleFile.PART ep ->
+       ep_brick ep = Sample.sbt ->
+       encode_file SampleFile.sdb ep None (SampleFile.dom flip (VBrickColor 5) (VColor3uint8 r g b)) [1] =
+       Err EE_TYPE_MISMATCH.
+Proof. exact SampleFile.bin_write_legacy_first_unmigratable_fails_file. Qed.
+
